@@ -31,6 +31,7 @@ type Server struct {
 	failMode string
 	dead     bool
 	ncmd     int
+	lastCmd  time.Time
 	// Gate, when set, is called (without the lock) before a data command takes effect; it may block.
 	Gate  func(name, coll string)
 	conns map[net.Conn]bool
@@ -63,6 +64,31 @@ func (s *Server) Disarm() int {
 
 // Revive makes a dead database answer again (existing connections were closed).
 func (s *Server) Revive() { s.mu.Lock(); s.dead = false; s.mu.Unlock() }
+
+// WaitIdle blocks until no data command has arrived for the idle duration (background goroutines of
+// earlier requests have finished their database work), at most max.
+func (s *Server) WaitIdle(idle, max time.Duration) {
+	deadline := time.Now().Add(max)
+	for time.Now().Before(deadline) {
+		s.mu.Lock()
+		since := time.Since(s.lastCmd)
+		s.mu.Unlock()
+		if since >= idle {
+			return
+		}
+		time.Sleep(idle / 4)
+	}
+}
+
+// LogSince returns the data commands logged from position n on.
+func (s *Server) LogSince(n int) []string {
+	s.mu.Lock()
+	defer s.mu.Unlock()
+	if n > len(s.Log) {
+		return nil
+	}
+	return append([]string{}, s.Log[n:]...)
+}
 
 // Count returns the number of data commands handled so far.
 func (s *Server) Count() int { s.mu.Lock(); defer s.mu.Unlock(); return len(s.Log) }
@@ -365,17 +391,20 @@ func (s *Server) handle(db string, cmd bson.D, seqs map[string][]bson.D) bson.D 
 	ok := bson.D{{Key: "ok", Value: 1.0}}
 	ns := db + "." + coll
 	if IsData(name) {
+		s.lastCmd = time.Now()
 		if s.dead {
+			s.Log = append(s.Log, fmt.Sprintf("DEAD %s %s", name, ns))
 			return errDead
 		}
 		s.ncmd++
 		if s.failAt > 0 && s.ncmd == s.failAt {
 			if s.failMode == "dead" {
 				s.dead = true
+				s.Log = append(s.Log, fmt.Sprintf("DEAD %s %s", name, ns))
 				return errDead
 			}
 			s.Log = append(s.Log, fmt.Sprintf("FAILED %s %s", name, ns))
-			return bson.D{{Key: "ok", Value: 0.0}, {Key: "errmsg", Value: "injected failure"}, {Key: "code", Value: int32(11600)}, {Key: "codeName", Value: "InterruptedAtShutdown"}}
+			return bson.D{{Key: "ok", Value: 0.0}, {Key: "errmsg", Value: "injected failure"}, {Key: "code", Value: int32(96)}, {Key: "codeName", Value: "OperationFailed"}}
 		}
 		s.Log = append(s.Log, fmt.Sprintf("%s %s", name, ns))
 	}
